@@ -27,12 +27,20 @@ func guardedSummary(w *World, fn *ssa.Function, idx int) []string {
 	fa := w.FA(fn)
 	var out []string
 	for _, ret := range returnsOf(fn) {
-		var cs []string
-		for _, cd := range fa.Conds(ret.Block()) {
-			cs = append(cs, fmt.Sprintf("%v:%s", cd.Pol, fa.VN(cd.V)))
+		// a result merged from several places (one exit with a phi) is the same summary as several exits
+		for _, lf := range fa.leavesOf(ret.Results[idx], ret.Block(), 0) {
+			seen := map[string]bool{}
+			var cs []string
+			for _, cd := range lf.Conds {
+				c := fmt.Sprintf("%v:%s", cd.Pol, fa.VN(cd.V))
+				if !seen[c] {
+					seen[c] = true
+					cs = append(cs, c)
+				}
+			}
+			sort.Strings(cs)
+			out = append(out, "["+strings.Join(cs, " && ")+"] => "+fa.VN(stripConv(lf.V)))
 		}
-		sort.Strings(cs)
-		out = append(out, "["+strings.Join(cs, " && ")+"] => "+fa.VN(stripConv(ret.Results[idx])))
 	}
 	sort.Strings(out)
 	return out
